@@ -10,7 +10,10 @@ use std::sync::atomic::{AtomicU64, Ordering};
 use std::sync::{Arc, Mutex};
 use std::time::{Duration, Instant};
 
-pub const VERIF_ROOT: &str = "/verif";
+/// the verif root is the working directory (check.sh cds to its own directory before exec)
+pub fn verif_root() -> PathBuf {
+    std::env::var("VERIF_ROOT").map(PathBuf::from).unwrap_or_else(|_| std::env::current_dir().unwrap_or_else(|_| PathBuf::from("/verif")))
+}
 
 #[derive(Clone, Copy, Debug, PartialEq, Eq)]
 pub enum Tier {
@@ -281,7 +284,7 @@ impl Ctx {
                 }
             }
         }
-        let outdir = PathBuf::from(VERIF_ROOT).join("out").join("violations").join(&self.prop);
+        let outdir = verif_root().join("out").join("violations").join(&self.prop);
         let mut vpaths = vec![];
         if !violations.is_empty() {
             let _ = std::fs::create_dir_all(&outdir);
@@ -336,7 +339,7 @@ impl Ctx {
             "violation_files": vpaths,
         });
         if !self.replay_only {
-            let evdir = PathBuf::from(VERIF_ROOT).join("evidence");
+            let evdir = verif_root().join("evidence");
             let _ = std::fs::create_dir_all(&evdir);
             let p = evdir.join(format!("{}.json", self.prop));
             if let Err(e) = std::fs::write(&p, serde_json::to_string_pretty(&ev).unwrap()) {
@@ -381,7 +384,7 @@ pub fn trunc(s: &str, n: usize) -> String {
 }
 
 pub fn load_known(prop: &str) -> Vec<KnownEntry> {
-    let p = PathBuf::from(VERIF_ROOT).join("known_findings.jsonl");
+    let p = verif_root().join("known_findings.jsonl");
     let mut out = vec![];
     if let Ok(s) = std::fs::read_to_string(p) {
         for line in s.lines() {
@@ -401,7 +404,7 @@ pub fn load_known(prop: &str) -> Vec<KnownEntry> {
 
 /// Regression inputs committed under /verif/replays/<ID>/*.json
 pub fn replay_files(prop: &str) -> Vec<PathBuf> {
-    let d = PathBuf::from(VERIF_ROOT).join("replays").join(prop);
+    let d = verif_root().join("replays").join(prop);
     let mut v: Vec<PathBuf> = std::fs::read_dir(d).map(|r| r.filter_map(|e| e.ok()).map(|e| e.path()).filter(|p| p.extension().map_or(false, |x| x == "json")).collect()).unwrap_or_default();
     v.sort();
     v
